@@ -134,6 +134,9 @@ let () =
   (* property oracles on the implementation's own trace (independent of the model) *)
   let seen_calls : (int * int * int, int) Hashtbl.t = Hashtbl.create 64 in    (* (f, x, tid-or--1) -> executions *)
   let last_body : (int * int * int, int) Hashtbl.t = Hashtbl.create 64 in
+  (* the previous event, when it was a call: (event index, f, x, thread, body ran, result to be cached) *)
+  let prev_call : (int * int * int * int * bool * bool * int) option ref = ref None in
+  let seen_calls_thread : (int * int * int, unit) Hashtbl.t = Hashtbl.create 64 in
   let nontrivial = ref false in
   let inval_seen = ref false in
   let pending_call : (int * int * call_in * (key * res) option) option ref = ref None in   (* f, world index, input, asked_inv *)
@@ -365,6 +368,11 @@ let () =
                 if age_s >= t && exec = 0 then fail "ttl" (Printf.sprintf "f%d x=%d: entry of age %ds served with ttl %d" f x age_s t);
                 if age_s < t && exec > 0 && not fn.w.w_inval_on then
                   fail "ttl" (Printf.sprintf "f%d x=%d: entry of age %ds recomputed with ttl %d" f x age_s t);
+                (* an expired entry does not survive a lookup of its key: it is gone or replaced by a fresh one *)
+                (match List.assoc_opt x prev_store, stored_after with
+                 | Some (pv, _, pb), Some (sv, _, sb) when age_s >= t && pv = sv && pb = sb ->
+                   fail "ttl" (Printf.sprintf "f%d x=%d: the expired entry (age %ds, ttl %d) is still stored after a lookup of its key" f x age_s t)
+                 | _ -> ());
                 (* with invalidate_on: an unexpired entry must at least be found and shown to the check *)
                 if age_s < t && exec > 0 && fn.w.w_inval_on && invlog = "-" then
                   fail "ttl" (Printf.sprintf "f%d x=%d: entry of age %ds (ttl %d) was not found by the lookup: the check was not consulted and the body ran" f x age_s t)
@@ -425,9 +433,27 @@ let () =
               Hashtbl.replace used_at (f, itid, x) !evidx; Hashtbl.replace stored_at (f, itid, x) !evidx;
               Hashtbl.replace stored_time (f, itid, x) (int_of_n now) end);
            if has "iso" then check_frame "iso" [(f, itid)] instances;
-           if has "stats" && fn.fl <> "t" && not fn.w.w_inval_on then begin
+           (* sharing / isolation between threads, on two consecutive calls with the same arguments from
+              DIFFERENT threads with no time in between: global and async caches serve the second from
+              the first one's store; thread-scope caches never do (the first call of a thread for a key
+              runs the body) *)
+           if has "iso" then begin
+             (match !prev_call with
+              | Some (pe, pf, px, ptid, pexec, pstored, pnow) when pe = !evidx - 1 && pf = f && px = x && ptid <> tid && pnow = int_of_n now ->
+                if fn.fl <> "t" && pexec && pstored && fits && newest_survives && exec > 0 && not fn.w.w_inval_on then
+                  fail "iso" (Printf.sprintf "f%d x=%d: thread %d stored the result, the next call (thread %d, same arguments, no time in between) ran the body again: the cache is not shared" f x ptid tid);
+                if fn.fl = "t" && exec = 0 && not (Hashtbl.mem seen_calls_thread (f, x, tid)) then
+                  fail "iso" (Printf.sprintf "f%d x=%d: the first call of thread %d for these arguments was served without running the body (thread %d had stored the result)" f x tid ptid)
+              | _ -> ());
+             Hashtbl.replace seen_calls_thread (f, x, tid) ()
+           end;
+           prev_call := Some (!evidx, f, x, tid, exec > 0, decision, int_of_n now);
+           if has "stats" && fn.fl <> "t" then begin
              let (h, m) = (try Hashtbl.find exp_stats f with Not_found -> (0, 0)) in
-             let (h, m) = if exec = 0 then (h + 1, m) else (h, m + 1) in
+             (* a hit exactly when an unexpired entry was found: the call was served, or the entry was
+                found and shown to invalidate_on (which then judged it stale and the body ran) *)
+             let found = exec = 0 || (fn.w.w_inval_on && invlog <> "-") in
+             let (h, m) = if found then (h + 1, m) else (h, m + 1) in
              Hashtbl.replace exp_stats f (h, m);
              (match this_inst with
               | Some { whits = Some ih; wmisses = Some im; _ } when (ih, im) <> (h, m) ->
@@ -505,6 +531,16 @@ let () =
                    if not (List.mem_assoc k wi.wstore) && not (expired_self k) then
                      fail "c20" (Printf.sprintf "f%d: the suspended call for x=%d removed the entry of key %d during its lookup" f x k)) p.wstore
              | _ -> ());
+            (* ... and it DOES remove its own expired entry: the cache must be as after a plain lookup *)
+            (match List.find_opt (fun wi -> wi.wf = f && wi.wtid = -1) instances, Hashtbl.find_opt prev_inst (f, -1) with
+             | Some wi, Some p ->
+               (match fn.w.w_cfg.ttl, List.assoc_opt x p.wstore with
+                | Some t, Some (_, _, born) ->
+                  let born = (try Hashtbl.find stored_time (f, -1, x) with Not_found -> born) in
+                  if (int_of_n now) / 1000 - born / 1000 >= int_of_n t && List.mem_assoc x wi.wstore then
+                    fail "c20" (Printf.sprintf "f%d x=%d: the expired entry is still stored after the lookup of the suspended call" f x)
+                | _ -> ())
+             | _ -> ());
             if Option.value (field "inv") ~default:"-" <> show_asked a then
               set_verdict (Printf.sprintf "MISMATCH %d callA f%d x=%d invalidate_on log model=%s impl=%s" !evidx f x (show_asked a) (Option.value (field "inv") ~default:"?"))
           | Some (Some _, _), _ -> set_verdict (Printf.sprintf "MISMATCH %d callA f%d x=%d model=served impl=%s" !evidx f x !got_r)
@@ -556,6 +592,26 @@ let () =
                         fail "c20" (Printf.sprintf "f%d x=%d: the entry stored by the resumed call is born at %d ms, the call resumed at %d ms" f x born (int_of_n now))
                       | _ -> ())
                   | None -> ());
+               (* "if the call is resumed later it stores its result normally": a result the store decision
+                  accepts and that fits is afterwards THE entry of its key — this value, born now, at the back
+                  of the queue (the async engine evicts before it inserts, so nothing can remove it at once) *)
+               if has "c20" && field "panic" = None then begin
+                 let okb = (match ci.ci_body with ROk _ -> true | RErr _ -> false) in
+                 let fits = (match fn.w.w_cfg.maxmem with None -> true | Some m -> size <= int_of_n m) in
+                 if impl_store_decision fn okb ci.ci_cif && fits then
+                   (match List.find_opt (fun wi -> wi.wf = f && wi.wtid = -1) instances with
+                    | Some wi ->
+                      (match List.assoc_opt x wi.wstore with
+                       | Some (v, _, born) when v = int_of_n (enc ci.ci_body) && born = (int_of_n now / 1000) * 1000 ->
+                         if (match List.rev wi.wq with last :: _ -> last <> x | [] -> true) then
+                           fail "c20" (Printf.sprintf "f%d x=%d: the resumed call did not move its key to the back of the order queue %s" f x
+                                         (String.concat "," (List.map string_of_int wi.wq)))
+                       | Some (v, _, born) ->
+                         fail "c20" (Printf.sprintf "f%d x=%d: after the resumed call the entry holds %d born at %d ms; the call's result is %d and it resumed at %d ms (nothing was stored)"
+                                       f x v born (int_of_n (enc ci.ci_body)) (int_of_n now))
+                       | None -> fail "c20" (Printf.sprintf "f%d x=%d: the resumed call stored nothing" f x))
+                    | None -> ())
+               end;
                if has "c20" && field "panic" = None && Option.value (field "enc") ~default:"" <> string_of_int (int_of_n (enc ci.ci_body)) then
                  fail "c20" (Printf.sprintf "f%d x=%d: the resumed call returned %s, its body's result is %d" f x (Option.value (field "enc") ~default:"?") (int_of_n (enc ci.ci_body)))))
        | "callD", _ ->
@@ -677,7 +733,7 @@ let () =
          Hashtbl.reset names;
          let (w, ix) = build_world fns in
          world := w; index := ix; verdict := None; evidx := 0; skip := false; fails := [];
-         Hashtbl.reset seen_calls; Hashtbl.reset last_body; nontrivial := false;
+         Hashtbl.reset seen_calls; Hashtbl.reset last_body; Hashtbl.reset seen_calls_thread; prev_call := None; nontrivial := false;
          Hashtbl.reset prev_inst; Hashtbl.reset exp_stats; inval_seen := false; pending_call := None; Hashtbl.reset stored_at; Hashtbl.reset stored_time; Hashtbl.reset used_at; Hashtbl.reset hits_since;
          ev := []; rline := []; ws := []
        | "E" :: rest -> ev := rest
